@@ -153,7 +153,7 @@ def walk(ctx, db, rid='C02.walk'):
     rid = ctx.rule(rid, 'ORDER+NO-TOUCH', 'chain walkers (awaiter::resume_chain_lk, mutex::unlock): nothing reachable from a node (or an alias of it) is read or written after '
                    'the node has been resumed / handed over - its owner may already be gone', floor=2)
     for name, is_resume in (('cocls::awaiter::resume_chain_lk', lambda ev: ev.k == 'call' and norm(ev.get('callee')) == 'cocls::awaiter::resume'),
-                            ('cocls::mutex::unlock', lambda ev: ev.k == 'call' and (ev.get('recv') == 'param:fn' or norm(ev.get('callee')) == 'cocls::awaiter::resume'))):
+                            ('cocls::mutex::unlock', lambda ev: ev.k == 'call' and (ev.get('recv') == 'param:fn' or (ev.get('callee_expr') or '').startswith('param:fn') or norm(ev.get('callee')) == 'cocls::awaiter::resume'))):
         for f, trs in traces_of(db, name, depth=0, per_instance=False, maxvisit=3):
             ctx.paths(rid, len(trs))
             bad = None; nres = 0
